@@ -1,21 +1,27 @@
-"""Memento functions used only as *names* by the storage-level checks (C05/C06/C07/C19).
+"""Memento functions used by the storage-level checks (C05/C06/C07/C19).
 
 Explicit versions: the code hash machinery is not involved.  ``fn`` / ``fn1`` give a pair of
 names one of which is a prefix of the other; versions "1" / "10" are crafted on references.
+Bodies announce themselves through ``sys.audit`` (invisible to versions, exact run counts).
 """
+import sys
+
 import twosigma.memento as m
 
 
 @m.memento_function(cluster="vfc", version="1")
 def fn(x):
-    return x
+    sys.audit("vf.body", "fn", x)
+    return "computed-fn-%s" % x
 
 
 @m.memento_function(cluster="vfc", version="1")
 def fn1(x):
-    return x
+    sys.audit("vf.body", "fn1", x)
+    return "computed-fn1-%s" % x
 
 
 @m.memento_function(cluster="vfc", version="1")
 def gn(x):
-    return x
+    sys.audit("vf.body", "gn", x)
+    return "computed-gn-%s" % x
